@@ -144,3 +144,29 @@ Proof.
   unfold field_cond in Hc. apply andb_true_iff in Hc. destruct Hc as [Hc _].
   apply andb_true_iff in Hc. tauto.
 Qed.
+
+(* ------------------------------------------------------------------ sequences of requests *)
+
+Lemma requests_independent_lemma : forall pre r post,
+  nth_error (run_requests fixed (pre ++ r :: post)) (List.length pre) = Some (serve fixed r).
+Proof.
+  intros pre r post. unfold run_requests. rewrite map_app. simpl.
+  rewrite nth_error_app2; rewrite map_length; [|apply Nat.le_refl].
+  rewrite Nat.sub_diag. reflexivity.
+Qed.
+
+Lemma sequence_each_lemma : forall rs i r v,
+  nth_error rs i = Some r ->
+  nth_error (run_requests fixed rs) i = Some (Ok v) ->
+  decode (rq_cfg r) (rq_type r) (rq_doc r) = Some v /\ meets (rq_cfg r) (rq_type r) (rq_doc r) = true.
+Proof.
+  intros rs i r v Hr Hv. unfold run_requests in Hv.
+  rewrite (map_nth_error (serve fixed) i rs Hr) in Hv. inversion Hv as [Hs].
+  unfold serve in Hs. apply unmarshal_iff in Hs. exact Hs.
+Qed.
+
+Lemma sequence_no_panic_lemma : forall rs i, nth_error (run_requests fixed rs) i <> Some Panic.
+Proof.
+  intros rs i H. unfold run_requests in H. apply nth_error_In in H. apply in_map_iff in H.
+  destruct H as [r [Hs _]]. unfold serve in Hs. exact (unmarshal_no_panic _ _ _ Hs).
+Qed.
